@@ -813,7 +813,7 @@ class Image:
             Image: scaled image
 
         """
-        if not isinstance(scalar, float) or isinstance(scalar, int):
+        if not (isinstance(scalar, float) or isinstance(scalar, int)):
             raise ValueError
 
         result_image = self.copy()
